@@ -187,6 +187,11 @@ def cases(tier, seed, args):
             out.append(dict(t='greedyx_rand', K=K, F=F, T=T, seed=int(rng.integers(1 << 30)),
                             metric=['euclidean', 'multiply'][i % 2], which=['greedy', 'dhtv'][(i // 2) % 2],
                             alg=['greedy', 'optimal'][(i // 4) % 2]))
+        # the greedy adjacent-bin aligner with the cosine metric on small non-negative integer masks without zero rows (rows of
+        # clearly different norms): the order of the cosines is an exact integer relation
+        for i in range(60 if q else 400):
+            out.append(dict(t='greedyx_rand', K=2 + i % 2, F=int(rng.choice([3, 5, 9])), T=int(rng.integers(2, 4)), seed=int(rng.integers(1 << 30)),
+                            metric='cos', which='greedy', alg='greedy', small=True))
     return out
 
 
@@ -664,6 +669,10 @@ def run_case(case):
         rng = np.random.default_rng(case['seed'])
         K, F, T = case['K'], case['F'], case['T']
         m = rng.integers(0, 4 if case['seed'] % 4 == 0 else 101, size=(K, F, T)).tolist()
+        if case.get('small'):
+            mm = rng.integers(0, 3, size=(K, F, T))
+            mm[..., 0] = np.where(mm.sum(-1) == 0, 1, mm[..., 0])
+            m = mm.tolist()
         if case['which'] == 'greedy':
             return _exact(dict(t='greedyx', m=m, metric=case['metric']))
         width = int(rng.integers(1, F + 1))
